@@ -921,7 +921,9 @@ def gen_case(rng, ideal):
             armed_due = [t.tid for t in r.timers if t.status == drv.ARMED and t.deadline <= r.now]
             committed = [t.tid for t in r.timers if t.status == drv.COMMITTED]
             if not has_link:
-                if x < 0.6:
+                if x < 0.12:
+                    do(['openfail', True])
+                elif x < 0.6:
                     do(['open', rng.random() < 0.85])
                 elif x < 0.75:
                     do(['send', rid, rng.choice(hdrs), [rng.randrange(256) for _ in range(rng.randint(0, 4))],
@@ -1067,7 +1069,7 @@ def _nontrivial(case, res):
 
 
 def tie(ctx):
-    cases = corpus_cases() + reserved_bits_cases() + first_packet_cases() + callback_cases() + close_step_cases()
+    cases = corpus_cases() + failed_open_cases() + reserved_bits_cases() + first_packet_cases() + callback_cases() + close_step_cases()
     for _ in range(ctx.scale(40, 800)):
         cases.append(dict(gen_case(ctx.rng, ideal=ctx.rng.random() < 0.4), fresh=True))
     for _ in range(ctx.scale(1000, 20000)):
@@ -1272,6 +1274,9 @@ def judge(case, events, res):
         elif k == 'open':
             if not link:
                 link, sess, nr = True, sess + 1, bool(e[1])
+        elif k == 'openfail':
+            if not link:
+                sess += 1               # the driver connected (a session number is used up) but the attempt failed: no link
         elif k == 'setnr':
             if link:
                 nr = bool(e[1])
@@ -1408,6 +1413,20 @@ def close_step_cases():
     return out
 
 
+def failed_open_cases():
+    """open_link fails after the driver connected (its first set-up packet raises): afterwards there is no link — requests
+    with an expected reply are dropped, nothing is retried; a later successful open_link starts clean."""
+    out = []
+    S = lambda rid, tmo=100: ['send', rid, 0x91, [rid], [7], tmo]       # noqa: E731
+    for tmo in (100, 50):
+        out.append({'events': [['openfail', True], S(0, tmo), ['advfire', 250], S(1, tmo), ['advfire', 250], ['open', True],
+                               ['advfire', 300], S(2, tmo), ['advfire', 2 * tmo + 10]], 'ideal': True})
+        out.append({'events': [['open', True], S(0, tmo), ['advfire', 30], ['close'], ['openfail', True], S(1, tmo), ['advfire', 120],
+                               ['openfail', True], S(2, tmo), ['open', True], ['advfire', 450]], 'ideal': True})
+        out.append({'events': [['openfail', True], S(0, tmo), ['open', True], S(1, tmo), ['advfire', 3 * tmo]], 'ideal': True, 'fresh': True})
+    return out
+
+
 def reserved_bits_cases():
     """Replies built as the drivers build them, CRTPPacket(raw_header, payload), with each value of the two reserved header
     bits on the wire (the firmware sends them cleared; the library's own packets have them set): the reply cancels the request
@@ -1499,7 +1518,7 @@ def oracle(ctx, deep=False):
         if f and f['class'] not in {x['class'] for x in fails}:
             # shortest failing history first (enumeration is by length): no further shrinking needed
             fails.append(f)
-    cases = corpus_cases() + reserved_bits_cases() + first_packet_cases() + callback_cases() + close_step_cases() + list(enum_cases(ctx.scale(3, 5)))
+    cases = corpus_cases() + failed_open_cases() + reserved_bits_cases() + first_packet_cases() + callback_cases() + close_step_cases() + list(enum_cases(ctx.scale(3, 5)))
     for _ in range(ctx.scale(60, 1200)):
         cases.append(dict(gen_case(ctx.rng, ideal=ctx.rng.random() < 0.6), fresh=True))
     for _ in range(ctx.scale(4000, 80000) * (3 if deep else 1)):
